@@ -5,6 +5,7 @@ concurrent clients on shared keys checked for linearizability against an
 ordered-dictionary model WITHOUT the miss tolerance C05 grants to Cache.
 DESIGN.md section 9, C12."""
 import collections
+import os
 import hashlib
 import json
 import pickle
@@ -104,7 +105,9 @@ def gen_case(seed, tier):
         elif r < 0.80:
             op = {'op': rng.choice(('keys', 'values', 'items', 'iter', 'reversed', 'len'))}
         elif r < 0.86:
-            op = {'op': 'eq', 'other': rng.choice(('same-ordered', 'same-dict', 'permuted-ordered', 'permuted-dict', 'changed', 'shorter'))}
+            op = {'op': 'eq', 'other': rng.choice(('same-ordered', 'same-dict', 'permuted-ordered', 'permuted-dict', 'changed', 'shorter',
+                                                    'longer-ordered', 'longer-dict', 'same-index', 'permuted-index', 'changed-index',
+                                                    'shorter-index', 'longer-index', 'changed-dict'))}
         elif r < 0.88:
             op = {'op': 'clear'}
         elif r < 0.92:
@@ -138,20 +141,28 @@ class HKey:
         return isinstance(other, HKey) and self.ident == other.ident
 
 
-def _other(ref, how, rng_seed):
+def _other(ref, how, rng_seed, world=None):
+    """The comparand in two forms: for the Index under test and for the reference OrderedDict.  '-index' comparands are a
+    second Index (an ordered mapping: Index == Index is OrderedDict == OrderedDict)."""
     items = [(k.key, v) for k, v in ref.items()]
     if how.startswith('permuted'):
         items = items[1:] + items[:1]
-    if how == 'changed' and items:
-        items[0] = (items[0][0], 'changed!')
-    if how == 'shorter':
+    if how.startswith('changed') and items:
+        items[-1] = (items[-1][0], 'changed!')
+    if how.startswith('shorter'):
         items = items[:-1]
+    if how.startswith('longer'):
+        items = items + [('one-more', 1)]
+    wrapped = collections.OrderedDict((HKey(k), v) for k, v in items)
+    if how.endswith('index'):
+        n = len(os.listdir(world.root))
+        return world.dc.Index(world.path('cmp%d' % n), items), wrapped
     if how.endswith('ordered') or how in ('changed', 'shorter'):
-        return collections.OrderedDict(items), collections.OrderedDict((HKey(k), v) for k, v in items)
-    return dict(items), dict((HKey(k), v) for k, v in items)
+        return collections.OrderedDict(items), wrapped
+    return dict(items), dict(wrapped)
 
 
-def apply_both(ix, ref, op):
+def apply_both(ix, ref, op, world=None):
     name = op['op']
     if name == 'setitem':
         k, v = vals.dec(op['k']), vals.dec(op['v'])
@@ -206,8 +217,12 @@ def apply_both(ix, ref, op):
     if name == 'clear':
         return _norm(ix.clear), _norm(ref.clear)
     if name == 'eq':
-        plain, wrapped = _other(ref, op['other'], 0)
-        return _norm(lambda: (ix == plain, ix != plain)), _norm(lambda: (ref == wrapped, ref != wrapped))
+        plain, wrapped = _other(ref, op['other'], 0, world)
+        try:
+            return _norm(lambda: (ix == plain, ix != plain, plain == ix)), _norm(lambda: (ref == wrapped, ref != wrapped, wrapped == ref))
+        finally:
+            if op['other'].endswith('index'):
+                plain.cache.close()
     raise ValueError(name)
 
 
@@ -255,7 +270,7 @@ def run_seq(case):
                 probes['lifecycle'] = probes.get('lifecycle', 0) + 1
                 got = want = None
             else:
-                got, want = apply_both(ix, ref, op)
+                got, want = apply_both(ix, ref, op, world)
             if got != want:
                 violations.append({'rule': 'C12/result', 'sig': name,
                                    'detail': 'call #%d %s: Index %s, OrderedDict %s' % (idx, json.dumps(op)[:100], got, want)})
